@@ -378,10 +378,13 @@ def exactness(ctx, prog):
         if dotted(r.value) == mt:
             R.exact_gate(ctx, "C07-D2/SPEC", nb, r, f"{prev} is None and {cur} is None", "max_target is returned exactly when there is no previous header at all (the first block)",
                          key=f"C07-D2/SPEC|{q}|first-exact")
+    n_self = 0
     for x in nb.stmts(ast.Assign):
         if norm_text(x) == f"{prev} = {cur}":
+            n_self += 1
             R.exact_gate(ctx, "C07-D2/SPEC", nb, x, f"{prev} is None and {cur} is not None", "the second block is retargeted against itself (no header two back) — exactly then",
                          key=f"C07-D2/SPEC|{q}|second-exact")
+    ctx.floor("C07-D2/SPEC", "the second block's own header stands in for the missing header two back", n_self, 1, site=nb.site(), func=q)
     p = nb.path([nb.cfg.entry], [nb.cfg.exit], avoid=lambda n: n.kind == "return", include_exc=False)
     ctx.ob("C07-D2/SPEC", p is None, nb.site(), "every path of the retarget rule returns a target", func=q)
     # --- validate_chunk: chain context
